@@ -2,6 +2,7 @@
    Header-repository part: Headers/Splits.v over the split table regenerated from
    /repo/headers/splits.go.  Peer part: Net/NodeFSM (verification reply handling). *)
 From BR Require Import Base.Prelude Gen.Consts Headers.Tree Headers.Splits Headers.SplitsProofs.
+From BR Require Import Net.NodeFSM Net.NodeProofs.
 Open Scope N_scope.
 
 Theorem C03_consts_are_consensus :
@@ -51,6 +52,23 @@ Theorem C03_verify_only_locator :
   NoDup verify_only_locator.
 Proof. exact verify_only_locator_value. Qed.
 Print Assumptions C03_verify_only_locator.
+
+(* the peer clause, on the session model (shared with C13): a connection becomes ready / verified
+   only by a headers reply, after the completed handshake, whose first header is the BSV split
+   header (VerifyHeader accepts: C03_verify_only_bsv); any other reply - foreign, unknown, already
+   known, directly after genesis, empty - leaves it unverified and stops the connection *)
+Theorem C03_peer_verified_only_by_bsv : forall s a, n_ready s = false -> n_ready (fst (nstep s a)) = true ->
+  exists count all_ok, a = ARecv (MHeaders count HBsv all_ok) /\ n_hs_complete s = true /\ count <> 0 /\
+                       n_stopped s = false /\ n_verified (fst (nstep s a)) = true.
+Proof. exact ready_only_by_bsv_reply. Qed.
+Print Assumptions C03_peer_verified_only_by_bsv.
+
+Theorem C03_other_reply_disconnects : forall s count first all_ok, n_stopped s = false -> n_ready s = false ->
+  n_hs_complete s = true -> (count = 0 \/ first <> HBsv) ->
+  let '(s1, es) := recv s (MHeaders count first all_ok) in
+  n_verified s1 = n_verified s /\ n_ready s1 = false /\ n_stopped s1 = true /\ In EStop es.
+Proof. exact foreign_reply_disconnects. Qed.
+Print Assumptions C03_other_reply_disconnects.
 
 Example C03_example :
   split_verdict (mkSplitIn 12345 77 556767 true false true 1) = Some VWrongChain /\
